@@ -354,7 +354,8 @@ def check(case) -> core.Out:
         if fld is None:
             continue
         kind, nd, fl = fld
-        fk = "count" if attr in cnames else ("disc" if attr in must else field_kind(kind, nd, None, attr))
+        special = t.clsid == b"\x10\x02" and mode == 1 and attr == "calibTtagValid"  # sizes the group too
+        fk = "count" if attr in cnames or special else ("disc" if attr in must else field_kind(kind, nd, None, attr))
         rep = fits(kind, nd, fl, val)
         outside = outside or not rep
         infos.append((attr, val, kind, nd, fl, fk, rep))
@@ -414,14 +415,18 @@ def check(case) -> core.Out:
         if not out.viol and all(i[5] == "count" for i in structural):
             # payload length must be the one the supplied counts imply
             counts = {n: G.leaf_lookup(nodes, n) for n in cnames}
+            calib = G.leaf_lookup(nodes, "calibTtagValid")
             for attr, val, *_ in structural:
-                counts[attr] = int(val)
+                if attr == "calibTtagValid" and attr not in cnames:
+                    calib = int(val)
+                else:
+                    counts[attr] = int(val)
             ff = {k_: v_ for k_, v_ in (catalog.forced_for_kw(t) or {}).items() if not isinstance(v_, tuple)}
             z = layout.zero_instance(t.defn, mode, clsid, forced=ff, counts=counts)
             for nd_ in z:  # flags that drive special counts keep their base value
                 pass
             want_len = len(G.encode(z))
-            if t.clsid == b"\x10\x02" and mode == 1 and G.leaf_lookup(nodes, "calibTtagValid"):
+            if t.clsid == b"\x10\x02" and mode == 1 and calib:
                 want_len += 4
             if len(got) != want_len:
                 out.viol.append((f"{PROP}|count|{vk(structural[0][0], structural[0][1])}|wrong-length",
